@@ -29,10 +29,14 @@ def count_setter(stats, op):
     if op["op"] not in ("children", "typed"):
         return
     stats["setter_assignments"] = stats.get("setter_assignments", 0) + 1
+    if op.get("bare"):
+        stats["bare_value_children_assignments"] = stats.get("bare_value_children_assignments", 0) + 1
     if op.get("tag") == "err":
         stats["rejected_setter_assignments"] = stats.get("rejected_setter_assignments", 0) + 1
         d = stats.setdefault("rejected_setter_by_construction", {})
         d[str(op.get("why"))] = d.get(str(op.get("why")), 0) + 1
+        if op["op"] == "typed" and op.get("k") == "c" and op.get("why") == "junk":
+            stats["rejected_collections_assignment_with_non_object"] = stats.get("rejected_collections_assignment_with_non_object", 0) + 1
         if op.get("had_children"):
             stats["rejected_setter_on_populated_collection"] = stats.get("rejected_setter_on_populated_collection", 0) + 1
 
@@ -46,7 +50,7 @@ def setter_call(objs, op):
     op.pop("list_fact", None)
     attr = "children" if op["op"] == "children" else {"s": "sources", "e": "sensors", "c": "collections"}[op["k"]]
     try:
-        setattr(c, attr, [arg(objs, i) for i in op["objs"]])
+        setattr(c, attr, arg(objs, op["objs"][0]) if op.get("bare") else [arg(objs, i) for i in op["objs"]])
     except Exception:
         if c._children is not old:
             op["list_fact"] = "refused assignment left a different _children list object"
@@ -137,6 +141,11 @@ def gen_op(rng, cur_kinds, p_bad=0.06, children_of=None, p_copy=0.08):
                 objs = objs + [x] if objs else [x, x]
                 rng.shuffle(objs)
         if r < 0.78:
+            if rng.random() < 0.25:
+                # a BARE value (no list / tuple): an object is a list of one, anything else (5, None) reaches add() and is refused
+                q = rng.random()
+                x = JUNK_BASE + rng.randrange(4) if q < 0.5 else (c if q < 0.6 else rng.randrange(cur_n))
+                return {"op": "children", "c": c, "objs": [x], "bare": True, "why": "bare-junk" if q < 0.5 else ("bare-self" if q < 0.6 else None)}
             return {"op": "children", "c": c, "objs": objs, "why": why}
         return {"op": "typed", "c": c, "k": rng.choice("sec"), "objs": objs, "why": why}
     return {"op": "plus", "a": rng.randrange(cur_n), "b": rng.randrange(cur_n)}
@@ -161,6 +170,8 @@ def model_lines(h, plus_ok=None):
             lines.append(f"forest remove {op['c']} {int(op['rec'])} {int(op['raise'])} {ids(op['objs'])}")
         elif k == "parent":
             lines.append(f"forest parent {op['o']} {op['p']}")
+        elif k == "children" and op.get("bare"):
+            lines.append(f"forest childrenbare {op['c']} {op['objs'][0]}")
         elif k == "children":
             lines.append(f"forest children {op['c']} {ids(op['objs'])}")
         elif k == "typed":
